@@ -115,19 +115,51 @@ static MVal m_conv(MVal x, int t, MFlags *fl) {
   r.f = fp_round(q_from_ld(x.f), t); return r;
 }
 
-enum { K_SLOT, K_BIN, K_UN, K_CAST, K_COND, K_COMMA, K_ASSIGNOP, K_INCDEC, K_TRUTH };
+enum { K_SLOT, K_BIN, K_UN, K_CAST, K_COND, K_COMMA, K_ASSIGNOP, K_INCDEC, K_TRUTH, K_ILIT };
 enum { O_ADD, O_SUB, O_MUL, O_DIV, O_LT, O_LE, O_GT, O_GE, O_EQ, O_NE, O_LAND, O_LOR,
-       O_NEG, O_LNOT, O_POS, O_PREINC, O_PREDEC, O_POSTINC, O_POSTDEC };
+       O_NEG, O_LNOT, O_POS, O_PREINC, O_PREDEC, O_POSTINC, O_POSTDEC, O_BNOT, O_BAND, O_BOR, O_BXOR };
 typedef struct { int k, a, b; int l, r, c; } MNode;
 typedef union { long i; long double f; } SlotV;
 
 static SlotV m_slot[3];
 static MVal m_final; static int m_final_set;
 
+// Integer-only operators: they occur only as producers of integer operand *expressions* that are then converted to a
+// floating type (the operators themselves are C01's).  Unsigned arithmetic wraps (6.2.5p9); a signed result that does
+// not fit, and division by zero, are undefined (6.5p5, 6.5.5p5) -> not judged.
+static MVal m_ibinop(int op, int ct, MVal x, MVal y, MFlags *fl) {
+  MVal r; r.i = 0; r.f = 0; r.t = ct;
+  i128 a = iconv(x.i, ct), b = iconv(y.i, ct), z;
+  switch (op) {
+  case O_LT: r.t = T_INT; r.i = a < b; return r;
+  case O_LE: r.t = T_INT; r.i = a <= b; return r;
+  case O_GT: r.t = T_INT; r.i = a > b; return r;
+  case O_GE: r.t = T_INT; r.i = a >= b; return r;
+  case O_EQ: r.t = T_INT; r.i = a == b; return r;
+  case O_NE: r.t = T_INT; r.i = a != b; return r;
+  case O_ADD: z = a + b; break;
+  case O_SUB: z = a - b; break;
+  case O_MUL:
+    if (ty_uns[ct]) z = (i128)(((unsigned __int128)a * (unsigned __int128)b) & (((unsigned __int128)1 << 64) - 1));
+    else z = a * b;                                        // |a|, |b| <= 2^63: no overflow in 128 bits
+    break;
+  case O_DIV: if (b == 0) { fl->und = 1; return r; } z = a / b; break;
+  case O_BAND: z = a & b; break;
+  case O_BOR: z = a | b; break;
+  case O_BXOR: z = a ^ b; break;
+  default: abort();
+  }
+  if (ty_uns[ct]) r.i = iconv(z, ct);
+  else if (!fits(z, ct)) fl->und = 1;
+  else r.i = z;
+  return r;
+}
+
 static MVal m_binop(int op, MVal x, MVal y, MFlags *fl) {
   MVal r; r.i = 0; r.f = 0;
   int ct = common(x.t, y.t);
-  if (!IS_FP(ct)) { fprintf(stderr, "model: integer-only binary operator is C01's business\n"); abort(); }
+  if (!IS_FP(ct)) return m_ibinop(op, ct, x, y, fl);
+  if (op >= O_BAND) abort();
   MVal a = m_conv(x, ct, fl), b = m_conv(y, ct, fl);
   int an = ld_isnan(a.f) || ld_isnan(b.f);
   q128 p = q_from_ld(a.f), q = q_from_ld(b.f), z;
@@ -159,6 +191,7 @@ static MVal m_eval(const MNode *tab, int i, MFlags *fl) {
     if (IS_FP(r.t)) r.f = m_slot[n->a].f;
     else r.i = iconv(ty_uns[r.t] ? (i128)(unsigned long)m_slot[n->a].i : (i128)m_slot[n->a].i, r.t);
     return r;
+  case K_ILIT: r.t = T_INT; r.i = n->a; return r;          // integer constant of type int
   case K_CAST: x = m_eval(tab, n->l, fl); return m_conv(x, n->a, fl);
   case K_TRUTH: x = m_eval(tab, n->l, fl); r.t = T_INT; r.i = m_truth(x); return r;
   case K_COMMA: x = m_eval(tab, n->l, fl); return m_eval(tab, n->r, fl);
@@ -174,7 +207,16 @@ static MVal m_eval(const MNode *tab, int i, MFlags *fl) {
   case K_UN:
     x = m_eval(tab, n->l, fl);
     if (n->a == O_LNOT) { r.t = T_INT; r.i = !m_truth(x); return r; }
-    if (!IS_FP(x.t)) { fprintf(stderr, "model: integer unary operator is C01's business\n"); abort(); }
+    if (!IS_FP(x.t)) {                                     // operand is promoted; see m_ibinop about scope
+      r.t = promote(x.t);
+      i128 v = iconv(x.i, r.t);
+      if (n->a == O_POS) r.i = v;
+      else if (n->a == O_BNOT) r.i = iconv(~v, r.t);
+      else if (n->a == O_NEG) { if (ty_uns[r.t]) r.i = iconv(-v, r.t); else if (!fits(-v, r.t)) fl->und = 1; else r.i = -v; }
+      else abort();
+      return r;
+    }
+    if (n->a == O_BNOT) abort();
     r.t = x.t;
     if (n->a == O_POS) { r.f = x.f; return r; }
     if (n->a == O_NEG) { r.f = ld_neg(x.f); return r; }
